@@ -407,7 +407,7 @@ class Phase(Angle):
             # Check that formatting works at all...
             test = format(self.value, format_spec)
             pre, dot, post = test.partition(".")
-            if post:
+            if post or not dot:
                 precise = self.to_string(precision=len(post))
                 pre, _, post = precise.partition(".")
                 # Just to ensure no bad rounding happened
